@@ -112,4 +112,85 @@ theorem items_afterRemove (s s1 : St) (hc : Core s) (e1 : s1.calls = s.calls) (e
   · rename_i h1; rw [if_neg h1] at h
     left; rw [← e4]; exact h
 
+
+/-- **frame for owed callback entries**: an entry of `pend` after a step was there before, or was
+created by this step's critical section as `NewItem` describes -/
+theorem items_frame (s s' : St) (e : Ev) (hi : Inv s) (hs : step s e = some s') (it : CbItem)
+    (h : it ∈ s'.pend.flatten) : it ∈ s.pend.flatten ∨ NewItem s s' it := by
+  by_cases hl : isLock e = false
+  · exact Or.inl ((nonlock_frame s s' e hs hl).2.2 it h)
+  · have hl : isLock e = true := by simpa using hl
+    have hc := hi.core
+    cases e with
+    | addRefCS a =>
+      simp only [step] at hs; split at hs <;> try simp at hs
+      rename_i k ha
+      obtain ⟨_, hs⟩ := hs
+      split at hs
+      · simp at hs; subst hs
+        refine items_startResolve s _ hc ?_ ?_ ?_ ?_ it h <;> rfl
+      · split at hs <;> simp at hs <;> subst hs
+        · rename_i hcond
+          have h' : it ∈ (addBatch s.pend [CbItem.refcb a (k == CbKind.rcd) true s.value s.verr]).flatten := h
+          rcases mem_flatten_addBatch _ _ it h' with h1 | h1
+          · exact Or.inl h1
+          · right
+            simp at h1; subst h1
+            have hcur : s.cur.isSome = true := by rw [← hc.resCur]; exact hcond.1
+            obtain ⟨i, hcs⟩ := Option.isSome_iff_exists.mp hcur
+            have hlt := lt_of_getElem? ha
+            exact .deliver a k .done false false s.cur i (by simp [hlt]) hcond.2 hcs
+        · exact Or.inl h
+    | relCS b =>
+      simp only [step] at hs; split at hs <;> try simp at hs
+      split at hs <;> try simp at hs
+      case h_2 => obtain ⟨_, rfl⟩ := hs; exact Or.inl h
+      obtain ⟨_, rfl⟩ := hs
+      refine items_afterRemove s _ hc ?_ ?_ ?_ ?_ it h <;> rfl
+    | selfRelCS a =>
+      simp only [step] at hs; split at hs <;> try simp at hs
+      obtain ⟨_, rfl⟩ := hs
+      refine items_afterRemove s _ hc ?_ ?_ ?_ ?_ it h <;> rfl
+    | setCtxCS a =>
+      simp only [step] at hs; split at hs <;> try simp at hs
+      split at hs <;> simp at hs <;> obtain ⟨_, rfl⟩ := hs
+      · exact Or.inl h
+      · refine items_startResolve s _ hc ?_ ?_ ?_ ?_ it h <;> rfl
+    | relRun r =>
+      simp only [step] at hs; split at hs <;> try simp at hs
+      split at hs <;> try simp at hs
+      split at hs <;> simp at hs <;> obtain ⟨_, rfl⟩ := hs
+      · refine items_startResolve s _ hc ?_ ?_ ?_ ?_ it h <;> rfl
+      · exact Or.inl h
+    | store i =>
+      simp only [step] at hs; split at hs <;> try simp at hs
+      rename_i c hcall
+      split at hs <;> try simp at hs
+      rename_i val hasRel err hres
+      obtain ⟨⟨_, hnf, _⟩, hs⟩ := hs
+      have hcr : c.released = false := by
+        cases hcr : c.released
+        · rfl
+        · have := (hc.relFin i c hcall hcr).1; rw [hnf] at this; cases this
+      split at hs
+      · simp at hs; subst hs
+        have h' : it ∈ (addBatch s.pend (cbItems s.th true val err)).flatten := h
+        rcases mem_flatten_addBatch _ _ it h' with h1 | h1
+        · exact Or.inl h1
+        · right
+          obtain ⟨a, k, pc, f, sf, t, hth, hk, rfl⟩ := mem_cbItems _ _ _ _ it h1
+          refine .deliver a k pc f sf (some i) i ?_ hk rfl
+          show (tellAll s.th (some i))[a]? = _
+          rw [tellAll_get, hth]; simp [tell1, hk]
+      · split at hs <;> simp at hs <;> subst hs
+        · have h' : it ∈ (addBatch s.pend [CbItem.rel i (c.inv.getD 0) s.target]).flatten := h
+          rcases mem_flatten_addBatch _ _ it h' with h1 | h1
+          · exact Or.inl h1
+          · right
+            simp at h1; subst h1
+            refine .rel i _ _ (by simp [released, hcall, hcr]) ?_
+            simp [released, setCall, lt_of_getElem? hcall]
+        · exact Or.inl h
+    | _ => simp [isLock] at hl
+
 end UtilModel.RefCount
